@@ -3,7 +3,7 @@ import os
 from lib import core, bgpenc
 from lib.core import CheckFailure
 
-GENERATORS = ['merge', 'enums']
+GENERATORS = ['merge', 'enums', 'fsm']
 TRUSTED_BASE = [
     'Coq 8.16.1 kernel (coqc); vm_compute for the 9-pair merge table and the rx table; no axioms',
     'translator tools/gen_merge.py (AddpathDirection::merge arms, SessionConfig::rx_addpath/get_addpath/add_famdir shapes)',
